@@ -16,7 +16,7 @@ RULE = ("(a) repeated identical calls in one process; (b) the same calls in fres
         "priors (1e-6 relative; measured 2e-7); (d') approximate priors with a cold then warm on-disk lookup table "
         "(redirected cache dir) must give bit-identical grids and dates; (e) ties of the Coq models: the likelihood cache filled by "
         "precalculate_mutation_likelihoods vs model gather on a shuffled result list, and the conversions done by "
-        "NodeTimeValues.force_probability_space vs model conv_trace; non-trivial = the call returned")
+        "NodeTimeValues.force_probability_space vs model conv_trace; (f) array-valued population_size objects reused across three calls vs freshly built equal objects, caller's objects compared with a snapshot; non-trivial = the call returned")
 ASSUME = ["scheduler / hash-seed effects are only sampled (a theorem cannot exhibit them)",
           "multiprocessing.Pool delivers each result exactly once"]
 
@@ -207,6 +207,47 @@ def run(ctx, model_ok=True):
             if d != d0:
                 ctx.oracle_fail("process-differs", "%s: fresh process with PYTHONHASHSEED=%d gives %s, in-process %s" % (method, hs, d[:40], d0[:40]),
                                 {"ts": gen.ts_tables_dict(ts), "method": method, "opts": D.jsonable_opts(kw), "hashseed": hs})
+    # option OBJECTS reused across calls: array-valued options must not be modified by a call, and the second call
+    # with the same objects must be bit-identical to the first and to a call with freshly built equal objects
+    import copy
+    import numpy as np
+    for _ in range(ctx.n(10, 80)):
+        method = rng.choice(["inside_outside", "maximization"])
+        ts = D.datable_ts(rng, historical=False)
+        k = rng.choice([1, 2, 3])
+        sizes = np.array([rng.choice([0.5, 1.0, 10.0, 100.0]) for _ in range(k)], dtype=float)
+        breaks = np.array(sorted(rng.sample([0.1, 0.5, 2.0, 7.0], k - 1)), dtype=float)
+        form = rng.choice(["dict", "dict", "history", "ndarray"] if k > 1 else ["dict", "ndarray", "history", "float64"])
+        def build():
+            if form == "dict":
+                return {"population_size": sizes.copy(), "time_breaks": breaks.copy()}
+            if form == "history":
+                from tsdate.demography import PopulationSizeHistory
+                return PopulationSizeHistory(sizes.copy(), breaks.copy())
+            if form == "ndarray":
+                return sizes[:1].copy()
+            return np.float64(sizes[0])
+        pop = build()
+        snap = copy.deepcopy(pop.as_dict() if form == "history" else pop)
+        kw = {"mutation_rate": np.float64(rng.choice([0.05, 0.3])), "population_size": pop}
+        if rng.random() < 0.4:
+            kw["_via_date"] = True
+        rs = [D.call(method, ts, **kw) for _ in range(3)]
+        rf = D.call(method, ts, **dict(kw, population_size=build()))
+        ds = [digest(r[1]) if r[0] == "ok" else "raise:" + r[1] + ":" + r[2][:60] for r in rs + [rf]]
+        now = pop.as_dict() if form == "history" else pop
+        def same(a, b):
+            if isinstance(a, dict):
+                return set(a) == set(b) and all(same(a[x], b[x]) for x in a)
+            return np.array_equal(np.asarray(a, dtype=float), np.asarray(b, dtype=float))
+        desc = {"method": method, "check": "option-object-reuse", "form": form, "epochs": k, "ts": gen.ts_summary(ts)}
+        ctx.case(desc, nontrivial=rs[0][0] == "ok", kind="reuse-options/" + form)
+        replay = {"ts": gen.ts_tables_dict(ts), "method": method, "form": form, "sizes": [float(x) for x in sizes], "breaks": [float(x) for x in breaks],
+                  "mutation_rate": float(kw["mutation_rate"])}
+        if not same(snap, now):
+            ctx.oracle_fail("options-modified", "%s modified the caller's population_size object (%s): %r -> %r" % (method, form, snap, now), replay)
+        if len(set(ds)) != 1:
+            ctx.oracle_fail("repeat-differs/options-reused", "%s: repeated calls with the same option objects (%s) differ: %r" % (method, form, [d[:16] for d in ds]), replay)
     # prior reuse across probability spaces
     import tsdate
     for _ in range(ctx.n(5, 60)):
